@@ -39,6 +39,24 @@ def cases(tier, rng):
             yield "custom-repr", c
 
 
+    # the function has parameters the condition does not take (also underscore-prefixed ones, and keywords swallowed by **kw)
+    for _ in range(1200 if thorough else 150):
+        params = ["x", "y", "xs", "s", "o", "n"]
+        extra = rng.sample(["_scale", "_", "__cache", "zz", "Extra", "_audit"], rng.randint(1, 3))
+        c = exprprop.make_case(rng, depth=2, features=exprprop.MODEL_FEATURES, params=params, fparams=params + extra)
+        if c:
+            for e in extra:
+                c["env"][e] = rng.choice([3, "v", [1, 2], None])
+            if rng.random() < 0.4:
+                c["fparams"] = c["fparams"] + ["**kw"]
+                c["extra_kwargs"] = dict(("k%02d" % i, i) for i in range(rng.choice([1, 3, 60])))
+            yield "extra-function-parameters", c
+    # the closure variable is re-bound between two violations of the same contract
+    for expr in ("x > cl + 100", "cl < 0 or x > 100", "len(xs) > abs(cl) + 50", "x > 100 and cl > 0", "[cl, x] == []",
+                 "all(e > cl + 100 for e in [x, y])"):
+        for layout in ("oneline", "multiline"):
+            yield "closure-rebound", {"dom": "expr", "expr": expr, "env": {"x": 1, "y": 2, "xs": [1]}, "params": ["x", "y", "xs"],
+                                      "layout": layout, "rebind_cl": [9, -3, 5]}
     for params, expr, env in BIG_ALL:
         for a_repr in (None, {"maxlist": 2, "maxstring": 8, "maxother": 8, "maxlevel": 2}):
             for layout in ("oneline", "multiline"):
@@ -77,6 +95,12 @@ def run_impl(case):
 
 def spec(case, mos, io):
     fails = exprprop.check_values(case, io, mos)
+    for sub in io.get("rebinds", []):
+        sub_case = dict(case, _closure={"cl": sub["cl"]})
+        if sub["oracle_value_falsy"] and sub["out"][0] != "ViolationError":
+            fails.append("after re-binding the closure variable to %r the violation surfaced as %s" % (sub["cl"], sub["out"]))
+        for f in exprprop.check_values(sub_case, sub, None):
+            fails.append("after re-binding the closure variable to %r: %s" % (sub["cl"], f))
     _e = exprprop.split_mos(mos)[0]
     if _e is not None and not (_e.get("wf") and _e.get("idsNodup")):
         fails.append("harness: translated expression violates the theorem's hypotheses (wf / distinct ids)")
